@@ -732,6 +732,24 @@ fn boundary_residues(m: u32) -> Vec<i64> {
             v.push(x);
         }
     }
+    // zero divisors and nilpotent elements of composite moduli: the square root of a square modulus and its multiples,
+    // cofactors of small prime factors (products of two of them are exact multiples of M: the reduced result is 0)
+    if s * s == mm {
+        for x in [s, 2 * s, mm - s, 3 * s] {
+            if x > 0 && x < mm && !v.contains(&x) {
+                v.push(x);
+            }
+        }
+    }
+    for p in [2i64, 3, 5, 7, 11, 13] {
+        if mm % p == 0 && mm > p {
+            for x in [p, mm / p, mm - mm / p, mm - p] {
+                if x > 0 && x < mm && !v.contains(&x) {
+                    v.push(x);
+                }
+            }
+        }
+    }
     // worst cases of the Euclidean algorithm (inverse / division): residues next to M/phi and M/phi^2, whose continued
     // fraction with M has only small partial quotients, so the number of division steps is maximal (about 1.44*log2 M)
     let phi = 0.618_033_988_749_894_9_f64;
@@ -785,7 +803,7 @@ fn boundary_ctor_args(m: u32) -> Vec<i64> {
 fn boundary_exponents(m: u32) -> Vec<u64> {
     let mm = m as u64;
     let mut v: Vec<u64> = Vec::new();
-    for e in [0, 1, 2, mm - 2, mm - 1, mm, 1u64 << 32, 1u64 << 63, u64::MAX] {
+    for e in [0, 1, 2, 3, 4, 5, 6, 7, 8, 15, 16, 17, 31, 32, 33, 63, 64, 65, mm - 2, mm - 1, mm, mm + 1, 1u64 << 32, 1u64 << 63, u64::MAX] {
         if !v.contains(&e) {
             v.push(e);
         }
